@@ -195,7 +195,7 @@ fn file_roundtrip<const ZSTD: bool>() {
 
 //@ harness: c04_tampered_blob_is_rejected
 //@ prop: C04 C05
-//@ tier: quick
+//@ tier: experimental
 //@ timeout: 900
 //@ mem: 10
 //@ kernel: DecryptReadBackend::{read_encrypted_from_partial, read_encrypted_partial}, DecryptBackend::{decrypt, decrypt_file, read_encrypted_full}
@@ -216,7 +216,7 @@ pub(crate) fn c04_tampered_blob_is_rejected() { tamper_check::<false>(); }
 
 //@ harness: c04_tampered_blob_is_rejected_zstd
 //@ prop: C04 C05
-//@ tier: quick
+//@ tier: experimental
 //@ timeout: 900
 //@ mem: 10
 //@ kernel: as c04_tampered_blob_is_rejected, compressed blob
@@ -235,7 +235,9 @@ pub(crate) fn c04_tampered_blob_is_rejected() { tamper_check::<false>(); }
 pub(crate) fn c04_tampered_blob_is_rejected_zstd() { tamper_check::<true>(); }
 
 fn tamper_check<const ZSTD: bool>() {
-    let (rec, mut be) = null_backend();
+    // content-sensitive model MAC (vh::MacKey): the only key for which "a flipped bit is detected" is meaningful
+    let rec = Arc::new(NullBe::new());
+    let mut be = DecryptBackend::new(rec.clone() as Arc<dyn WriteBackend>, vh::ModelKeyG::<true, true>);
     be.set_extra_verify(false);
     be.set_zstd(level::<ZSTD>());
     let data: [u8; 3] = kani::any();
